@@ -68,6 +68,35 @@ let handle kind c =
           | None -> false) files in
       if not (old_ok && new_ok) then prop "rotation" (show files)
     end
+  | "share" ->
+    let now0 = next_z c in
+    let w0 = next_z c in
+    let now1 = next_z c in
+    let w1 = next_z c in
+    let opened = next_bool c in
+    let same = next_bool c in
+    let b2 = next_z c in let e2 = next_z c in
+    let tb = next_bytes c in let te = next_bytes c in
+    let first = counter_span now0 w0 in
+    let mine = counter_span now1 w1 in
+    check_eq "share-span" (fun (a, b) -> tok_of_z a ^ "," ^ tok_of_z b) mine (b2, e2);
+    (match second_opener first mine with
+     | None -> if opened then diff "share-opened" ~model:"refused" ~impl:"opened"
+     | Some s ->
+       if not opened then diff "share-opened" ~model:"opened" ~impl:"refused"
+       else begin
+         check_eq "share-same-file" string_of_bool (beq (name_date first) (name_date mine)) same;
+         check_eq "share-TimeBegin" string_of_bytes (meta_time_begin s) tb;
+         check_eq "share-TimeEnd" string_of_bytes (meta_time_end s) te
+       end);
+    (* property oracle: the file a process counts into records the span the
+       process keeps in memory (its rotation instant is the recorded end) *)
+    if opened then
+      (match uploader_reads tb te with
+       | Some (rb, re) when rb = b2 && re = e2 -> ()
+       | _ -> prop "counts-into-file-of-another-span"
+                (Printf.sprintf "in-memory span=%s,%s file records %s .. %s"
+                   (tok_of_z b2) (tok_of_z e2) (string_of_bytes tb) (string_of_bytes te)))
   | "upload" ->
     let _now = next_z c in
     let w = next_z c in
